@@ -9,6 +9,7 @@ import (
 	"flag"
 	"fmt"
 	"os"
+	"os/exec"
 	"path/filepath"
 	"sort"
 	"strconv"
@@ -51,6 +52,7 @@ func main() {
 	if *tier == "" {
 		*tier = "quick"
 	}
+	repoDir = *repo
 	seed := 1
 	if s := os.Getenv("VERIF_SEED"); s != "" {
 		if v, err := strconv.Atoi(s); err == nil {
@@ -382,6 +384,57 @@ func (ev *Evidence) addAssumption(s string) {
 	ev.Assumptions = append(ev.Assumptions, s)
 }
 
+var repoDir = "/repo"
+
+type replayEntry struct {
+	Obligation string `json:"obligation"`
+	Pkg        string `json:"pkg"`
+	Template   string `json:"template"`
+	Test       string `json:"test"`
+	Witness    string `json:"witness"`
+}
+
+// runReplay executes the replay template registered for an obligation against the real code of the
+// working tree (go test -overlay; nothing is written into the repository). The template test fails
+// iff the clause is violated by the real code on the concrete input it constructs.
+func runReplay(verif, repo, obligation string) map[string]any {
+	var reg []replayEntry
+	if err := readJSON(filepath.Join(verif, "replay", "registry.json"), &reg); err != nil {
+		return nil
+	}
+	for _, e := range reg {
+		if e.Obligation != obligation {
+			continue
+		}
+		ovDir, err := os.MkdirTemp("", "vreplay")
+		if err != nil {
+			return nil
+		}
+		defer os.RemoveAll(ovDir)
+		ov := map[string]any{"Replace": map[string]string{filepath.Join(repo, e.Pkg, "zz_replay_test.go"): filepath.Join(verif, e.Template)}}
+		ob, _ := json.Marshal(ov)
+		ovf := filepath.Join(ovDir, "overlay.json")
+		_ = os.WriteFile(ovf, ob, 0o644)
+		cmd := exec.Command("go", "test", "-overlay", ovf, "-vet=off", "-count=1", "-timeout", "120s", "-run", "^"+e.Test+"$", "./"+e.Pkg)
+		cmd.Dir = repo
+		cmd.Env = append(os.Environ(), "GOFLAGS=-mod=mod", "GOPROXY=off", "GOSUMDB=off", "GOTOOLCHAIN=local")
+		out, err := cmd.CombinedOutput()
+		var keep []string
+		for _, l := range strings.Split(string(out), "\n") {
+			if strings.HasPrefix(l, "I[") || strings.HasPrefix(l, "D[") || strings.HasPrefix(l, "E[") {
+				continue
+			}
+			keep = append(keep, l)
+		}
+		txt := strings.Join(keep, "\n")
+		if len(txt) > 4000 {
+			txt = txt[len(txt)-4000:]
+		}
+		return map[string]any{"template": e.Template, "test": e.Test, "witness": e.Witness, "reproduced": err != nil && strings.Contains(txt, "--- FAIL"), "go_test_output": txt}
+	}
+	return nil
+}
+
 func finish(ev *Evidence, cfg *PropCfg, violations []Violation, findings []Finding, replayDir string, start time.Time, verif, prop string) {
 	known := map[string]Finding{}
 	for _, f := range findings {
@@ -420,6 +473,12 @@ func finish(ev *Evidence, cfg *PropCfg, violations []Violation, findings []Findi
 			}
 		}
 		rep["replay"] = "no replay template for this obligation; the verifier's output is attached"
+		if rr := runReplay(verif, repoDir, v.Obligation); rr != nil {
+			rep["replay"] = rr
+			if rr["reproduced"] == true {
+				suffix = ""
+			}
+		}
 		b, _ := json.MarshalIndent(rep, "", " ")
 		_ = os.WriteFile(path, b, 0o644)
 		lines = append(lines, fmt.Sprintf("VIOLATION property=%s replay=%s%s", prop, path, suffix))
